@@ -151,6 +151,30 @@ func c02Check(e *core.Env, r *core.Rand, d *gen.Out, today ref.Date, nowCase boo
 			return
 		}
 	}
+	if !mustFail && e.KlogBin != "" && d.Text != "" && core.Hash64("c02-stdin", d.Text)%10 == 0 && !strings.Contains(d.Text, "\x00") {
+		// the whole program with the text on its standard input (`cat FILE | klog total`)
+		args := []string{"total", "--diff", "--no-warn", "--no-style"}
+		if nowCase {
+			args = append(args, "--now")
+		}
+		b := obs.RunBin(obs.BinEnv{Bin: e.KlogBin, ConfigDir: e.Dir + "/bincfg", Clock: &clock, Stdin: []byte(d.Text)}, args...)
+		if b.Err == nil {
+			w["how"] = "cat FILE | klog " + strings.Join(args, " ")
+			if obs.LooksLikeGoCrash(b.Stdout+b.Stderr) || b.Code != 0 {
+				e.Violation("total-fails", fmt.Sprintf("real binary, text on standard input: exit status %d\n%s", b.Code, trunc(b.Stderr+b.Stdout, 500)), w)
+				return
+			}
+			to, perr := parseTotalOutput(b.Stdout)
+			wt, ws, wd := ref.FormatPlainDuration(wantTotal), ref.FormatPlainDuration(wantShould)+"!", ref.FormatSignedDuration(wantDiff)
+			if perr != nil || to.Total != wt || to.Should != ws || to.Diff != wd || to.Records != len(doc.Recs) {
+				e.Violation("total-wrong", fmt.Sprintf("real binary, text on standard input (now=%v at %s): printed Total=%s Should=%s Diff=%s in %d records (parse error %v); the evaluation rules give Total=%s Should=%s Diff=%s in %d records",
+					nowCase, w["clock"], to.Total, to.Should, to.Diff, to.Records, perr, wt, ws, wd, len(doc.Recs)), w)
+				return
+			}
+			delete(w, "how")
+			e.Count("cases_also_piped_into_the_binary", 1)
+		}
+	}
 	if mustFail {
 		e.Count("now_cases_refused", 1)
 		e.Nontrivial(core.Hash64("c02-refuse", d.Text, fmt.Sprint(minute)))
@@ -187,6 +211,12 @@ func c02Check(e *core.Env, r *core.Rand, d *gen.Out, today ref.Date, nowCase boo
 		}
 		if diff := c02CheckWithTotals(res.Out, doc); diff != "" {
 			e.Violation("print-with-totals-wrong", diff+"\n"+trunc(res.Out, 1200), w)
+			return
+		}
+	}
+	if nowCase && r.Chance(1, 2) {
+		// the same file evaluated repeatedly by one process (`today --follow`): every evaluation stands on its own
+		if !checkFollow(e, r, d, f, today, minute, clock.Second(), w) {
 			return
 		}
 	}
